@@ -213,7 +213,7 @@ pub fn minimise(rf: &ReplayFile, subprocess: bool) -> ReplayFile {
         subprocess,
         evals: 0,
         start: Instant::now(),
-        tmp: format!("/verif/replays/raw/shrink-{}-{}.tmp", rf.property, std::process::id()),
+        tmp: format!("{}/replays/raw/shrink-{}-{}.tmp", crate::orchestrate::out(), rf.property, std::process::id()),
     };
     let mut t = rf.trace.clone();
     let Some(ev) = ctx.fails(&t) else {
